@@ -297,7 +297,8 @@ theorem processDelta_first_good (t : Ty) (hset : shouldSetWatched t = true) (hnr
   let rec0 := (deltaWatched [] r).1
   let w0 : WR := { names := rec0, wildcard := (deltaWatched [] r).2.1 }
   have hsr : shouldRespondDelta v.st r = .out true (v.st.set t (some w0)) := by
-    simp [shouldRespondDelta, shouldRespondDeltaG, deltaFirst, r, hnone, hman, w0, rec0]
+    rw [delta_unwatched_is_first_request v.st r hnone]
+    simp [r, hman, w0, rec0]
   let v0 : Srv := { v with st := v.st.set t (some w0) }
   have hw0 : v0.st r.ty = some w0 := by simp [v0, r]
   have hpush := pushDeltaOne_full W v0 r.ty w0 (deltaWatched [] r).1 (r.unsub.filter (· ≠ "*")) hset hnr hw0 hok
@@ -397,30 +398,9 @@ theorem processSotw_good (t : Ty) (hwild : t.wildcard = true) (W : List Res) (v 
   subst hty
   have hun : r.unsub = false := by simp [Req.unsub, hwild]
   have hfn := freshNonce_ne_empty v
-  -- the three shapes of the decision
-  have key : (∃ s', shouldRespond v.st r = .out false [] s' ∧ (s' r.ty).isSome = true ∧ (v.st r.ty).isSome = true) ∨
-      (∃ sub s' w, shouldRespond v.st r = .out true sub s' ∧ s' r.ty = some w) := by
-    unfold shouldRespond shouldRespondG
-    simp only [herr, hun, Bool.false_eq_true, if_false]
-    cases hp : v.st r.ty with
-    | none => exact Or.inr ⟨[], _, _, rfl, newWatched_self _ _ _⟩
-    | some prev =>
-      simp only []
-      by_cases hn : r.nonce = ""
-      · simp only [hn, if_true]
-        exact Or.inr ⟨[], _, _, rfl, newWatched_self _ _ _⟩
-      · simp only [hn, if_false]
-        by_cases hst : r.nonce ≠ prev.nonceSent
-        · rw [if_pos hst]
-          exact Or.inl ⟨_, rfl, by simp [hp], rfl⟩
-        · rw [if_neg hst]
-          split
-          · exact Or.inr ⟨_, _, _, rfl, State.set_same _ _ _⟩
-          · split
-            · exact Or.inl ⟨_, rfl, by simp, rfl⟩
-            · split
-              · exact Or.inl ⟨_, rfl, by simp, rfl⟩
-              · exact Or.inr ⟨_, _, _, rfl, State.set_same _ _ _⟩
+  -- the shapes of the decision (C04.respond_shapes): not answered and the watch stays, or answered and the
+  -- type is watched afterwards
+  have key := respond_shapes v.st r herr hun
   rcases key with ⟨s', hs, hsome, hprev⟩ | ⟨sub, s', w, hs, hw⟩
   · refine ⟨{ v with st := s' }, [], by simp [processSotw, hs], hok, hsome, by simp, ?_⟩
     intro hnone
